@@ -1,6 +1,6 @@
 #!/bin/bash
 # Runs every own mutant against the quick check of the property named by its file-name prefix
-# and writes mutations/RESULTS.txt. /repo must be clean and not in use by another run.
+# and writes mutations/RESULTS.txt. Each mutant is applied to a scratch worktree (tools/mutate.sh); /repo is not touched.
 cd /verif
 out=mutations/RESULTS.txt
 echo "# mutant kill table, quick tier, $(date -u +%Y-%m-%dT%H:%MZ), /repo at $(git -C /repo log --format=%h -1)" > $out
